@@ -126,7 +126,7 @@ def build_cases(ctx):
                             cases.append(dict(doc='\n'.join(lines), expect='pass', trace=trace, variants=['after_expected_exception:' + name]))
     # everything written since the previous want, when the lines are much longer than the want that describes them: columns padded
     # with long runs of blanks (written with single blanks in the want: NORMALIZE_WHITESPACE is on by default), coloured text
-    for pad, deco in ((48, ''), (90, ''), (6, '\x1b[1;32m'), (200, '')):
+    for pad, deco in ((48, ''), (90, ''), (6, '\x1b[1;32m'), (200, ''), (6, '\x1b[?25l'), (6, '\x1b[38:2::255:0:0m'), (6, '\x1b[>4;2m')):
         for nfront in (1, 2):
             front = [gendoc.Stmt('print', 10 + i) for i in range(nfront)]
             k = 10 + nfront
